@@ -17,7 +17,7 @@ class ExperimentInstance(NamedTuple):
 def run_experiment_group(
     name: str,
     run: str,
-    experiments: Iterable[ExperimentInstance],
+    experiments: Iterable[ExperimentInstance] = (),
     chain_experiments: bool = False,
     deps: Optional[Sequence[str]] = None,
 ) -> None:
